@@ -220,7 +220,12 @@ def op_case(draw, mode):
     if not per_leaf:
         blocks_shapes = blocks_shapes[:1]
     layout = 'leaf' if nleaves == 1 else draw(st.sampled_from(['tuple', 'list', 'dict']))
-    return {'kind': 'op', 's': s, 'default': default and draw(st.booleans()), 'half_blocks': draw(st.booleans()), 'leaves': leaves, 'blocks_shapes': blocks_shapes, 'per_leaf': per_leaf,
+    # leaves of one pytree may have different dtypes (every leaf is contracted on its own, with its own promotion)
+    ldts = None
+    if nleaves > 1 and draw(st.integers(0, 2)) == 0:
+        pool_ = ['float32', 'int32'] + (['float64'] if mode == 'x64' else [])
+        ldts = [draw(st.sampled_from(pool_)) for _ in range(nleaves)]
+    return {'kind': 'op', 'ldts': ldts, 's': s, 'default': default and draw(st.booleans()), 'half_blocks': draw(st.booleans()), 'leaves': leaves, 'blocks_shapes': blocks_shapes, 'per_leaf': per_leaf,
             'layout': layout, 'dtype': dt, 'seed': draw(st.integers(0, 50))}
 
 
@@ -286,7 +291,8 @@ def check(recipe, mode):
     # layer 2: operator level
     dt = recipe['dtype']
     leaves = recipe['leaves']
-    S = _tree(recipe['layout'], [St.leaf(lf['xshape'], dt) for lf in leaves])
+    ldts = recipe.get('ldts') or [dt] * len(leaves)
+    S = _tree(recipe['layout'], [St.leaf(lf['xshape'], d_) for lf, d_ in zip(leaves, ldts)])
     order = sorted(range(len(leaves)), key=lambda t: ['b', 'a', 'c'][t]) if recipe['layout'] == 'dict' else list(range(len(leaves)))
     Bs = [_ints(tuple(bs), recipe['seed'] + 3 * t) for t, bs in enumerate(recipe['blocks_shapes'])]
     xs = [_ints(tuple(lf['xshape']), recipe['seed'] + 11 + t) for t, lf in enumerate(leaves)]
@@ -305,8 +311,8 @@ def check(recipe, mode):
         blocks = St.build_value(cont, [Bs[t] for t in order]) if recipe['per_leaf'] else jnp.asarray(Bs[0], jnp.float32)
         op = D(blocks, St.to_jax(S)) if recipe.get('default') else D(blocks, St.to_jax(S), s)
     want = [np.einsum(sc, Bs[t] if recipe['per_leaf'] else Bs[0], xs[t]) for t in range(len(leaves))]
-    odt = 'float32' if dt == 'int32' else dt  # einsum of float32 blocks with an int32 leaf is float32
-    out_S = _tree(recipe['layout'], [St.leaf(w.shape, odt) for w in want])
+    odts = ['float32' if d_ == 'int32' else d_ for d_ in ldts]  # einsum of float32 blocks with an int32 leaf is float32
+    out_S = _tree(recipe['layout'], [St.leaf(w.shape, d_) for w, d_ in zip(want, odts)])
     declared = must_not_raise('out_structure', op.out_structure)
     if not St.same_structure(out_S, declared):
         raise Violation('out_structure', f'{s!r}: declared {St.describe(declared)}; numpy gives {St.describe(St.to_jax(out_S))}')
@@ -319,7 +325,7 @@ def check(recipe, mode):
     T = must_not_raise('transpose', lambda: op.T)
     # (for integer leaves the adjoint necessarily lives in the floating dtype of the output: shapes are compared, the
     # input dtype cannot come back)
-    S_back = S if dt != 'int32' else _tree(recipe['layout'], [St.leaf(lf['xshape'], odt) for lf in leaves])
+    S_back = _tree(recipe['layout'], [St.leaf(lf['xshape'], d_) for lf, d_ in zip(leaves, odts)])
     if not St.same_structure(out_S, T.in_structure()) or not St.same_structure(S_back, T.out_structure()):
         raise Violation('T-structure', f'{s!r}: structures of the transpose are not swapped')
     ys = [_ints(wt.shape, recipe['seed'] + 23 + t) for t, wt in enumerate(want)]
@@ -343,8 +349,10 @@ def check(recipe, mode):
         classes.append('batch_letter')
     if ' ' in s:
         classes.append('spaces')
-    if dt == 'int32':
+    if 'int32' in ldts:
         classes.append('integer_leaves')
+    if len(set(ldts)) > 1:
+        classes.append('mixed_leaf_dtypes')
     if sc == 'ij...,j...->i...':
         classes.append('default_subscripts')
     nontrivial = '...' in s or len(l.replace('...', '')) > 2 or l.replace('...', '')[:2] != 'ij'
